@@ -36,51 +36,74 @@ def pe_path(adt):
 
 def dn_arm(an, prog, b, L, signed):
     """Under (field_length=L, signed) -> (primitive width, variant, narrowing?, endian) or None if the arm fails.
-    Recognises `Ok(P(i)?).map(|(i, j)| (i, Self::V(j)))`, `P(i).map(closure)` and nom `map(P, Self::V)(i)` forms."""
+    Recognises `Ok(P(i)?).map(|(i, j)| (i, Self::V(j)))`, `P(i).map(closure)`, nom `map(P, Self::V)(i)` and
+    `let (i, j) = P(i)?; Ok((i, Self::V(j)))` forms, directly or in a private helper the arm delegates to (the
+    assumed argument values are carried into the helper)."""
     assume = {canon(("arg", 2)): L, canon(("arg", 3)): 1 if signed else 0}
-    r = reach_assuming(an, b, assume)
-    prims = []
-    variant = None
-    narrowing = None
+    st = {"prims": [], "variant": None, "narrowing": None}
+    _dn_scan(an, prog, b, assume, st, 0)
+    prims = st["prims"]
+    if not prims and st["variant"] is None:
+        return None
+    return (prims[0][2] if prims else None, st["variant"], st["narrowing"], prims[0][3] if prims else None)
 
-    def from_closure(clo):
-        nonlocal variant, narrowing
-        cb = prog.body(clo[1])
-        if cb is None:
-            return
-        for (bb, i, s) in block_aggs(cb):
+
+def _dn_scan(an, prog, b, assume, st, depth):
+    r = reach_assuming(an, b, assume)
+
+    def from_aggs(cb, blocks=None):
+        for (bb, i, s) in block_aggs(cb, blocks):
             if s["rv"]["adt"].endswith("::DataNumber"):
-                variant = s["rv"]["variant"]
+                st["variant"] = s["rv"]["variant"]
+                if not s["rv"]["ops"]:
+                    st["narrowing"] = False
+                    continue
                 pe = peel(an.op(cb, s["rv"]["ops"][0]), casts=False)
                 if pe[0] == "cast" and pe[1] == "IntToInt":
                     fb = int(re.sub(r"\D", "", pe[4] or "") or 0)
                     tb_ = int(re.sub(r"\D", "", pe[3]) or 0)
-                    narrowing = fb > tb_
+                    st["narrowing"] = fb > tb_
                 else:
-                    narrowing = False
+                    st["narrowing"] = False
 
+    from_aggs(b, r)
     for blk, t, c in b.calls():
         if blk not in r or c is None:
             continue
         p = prim_of(c)
         if p:
-            prims.append(p)
+            st["prims"].append(p)
+            continue
         if c.nsyn in ("std::result::Result::map",) or c.npath in ("nom::combinator::map",):
             for a in t["args"]:
                 e = peel(an.op(b, a), identity=(), casts=False)
                 if e[0] == "closure":
-                    from_closure(e)
+                    cb = prog.body(e[1])
+                    if cb is not None:
+                        from_aggs(cb)
                 elif e[0] == "constfn":
                     pp = prim_of(e[1])
                     if pp:
-                        prims.append(pp)
+                        st["prims"].append(pp)
                     m = re.match(r"^variable_versions::data_number::DataNumber::(\w+)$", e[1].path)
                     if m:
-                        variant = m.group(1)
-                        narrowing = False
-    if not prims and variant is None:
-        return None
-    return (prims[0][2] if prims else None, variant, narrowing, prims[0][3] if prims else None)
+                        st["variant"] = m.group(1)
+                        st["narrowing"] = False
+        elif c.local and c.kind == "Item" and depth < 2 and "nom_derive::Parse" not in c.path:
+            hb = prog.bodies.get(c.path)
+            if hb is None or hb.derived:
+                continue
+            sub = {}
+            for k, a in enumerate(t["args"]):
+                e = peel(an.op(b, a))
+                cv = assume.get(canon(e))
+                if cv is None:
+                    ce = const_eval(e)
+                    if ce is not None and len(ce) == 1 and not isinstance(next(iter(ce)), tuple):
+                        cv = next(iter(ce))
+                if cv is not None:
+                    sub[canon(("arg", k + 1))] = cv
+            _dn_scan(an, prog, hb, sub, st, depth + 1)
 
 
 def datanumber_table(an, prog):
